@@ -256,9 +256,10 @@ class Builder:
         else:
             lb = it.get("lead_blank", 0)
             cons["lead"] = 1 + lb
-            self.emit(indent + "${")
+            wsb = it.get("wsb", 0)  # blanks after the opening delimiter / in the blank lines that follow it
+            self.emit(indent + "${" + ["", " ", "", "\t"][wsb])
             for _ in range(lb):
-                self.emit("")
+                self.emit(["", "", "  ", " \t"][wsb])
             self.emit(indent + "  " + self._expr_src(it["calls"], "expr-ml", cons))
             self.emit(indent + flt + "}")
 
@@ -370,9 +371,10 @@ class Builder:
         lb = it.get("lead_blank", 0)
         cons["lead"] = 1 + lb
         m = " " * it.get("margin", 0)
-        opened = self.emit(indent + ("" if (tc or not it.get("pre")) else "text ") + op)
+        wsb = it.get("wsb", 0)
+        opened = self.emit(indent + ("" if (tc or not it.get("pre")) else "text ") + op + ["", " ", "", "\t"][wsb])
         for _ in range(lb):
-            self.emit("")
+            self.emit(["", "", "  ", " \t"][wsb])
         for st in it["stmts"]:
             t = st.get("t", "assign")
             if t == "blank":
